@@ -9,6 +9,10 @@ c. every command helper obtained through workspace_helper* has snapshotted (or r
 d. a helper that could not snapshot can never update the working copy
 e. the no-snapshot helper is used only by commands that neither mutate a working copy nor start a transaction
 f. snapshot is committed before the working copy records it; recovery snapshots before checking out (C15.e/f)
+g. the one way a writable working copy is NOT snapshotted on the way in -- the workspace has no working-copy commit in
+   the loaded view (it was forgotten) -- can never be followed by a checkout that changes tracked files: in
+   finish_transaction the working copy is updated only if an old working-copy commit exists (expected-tree guard
+   applies) or the tree recorded in the working copy equals the new commit's tree / is empty
 """
 import re
 
@@ -60,6 +64,7 @@ def run(ctx):
     rule_d(ctx)
     rule_e(ctx)
     rule_f(ctx)
+    rule_g(ctx)
 
 
 def rule_a(ctx):
@@ -249,3 +254,99 @@ def rule_e(ctx):
 def rule_f(ctx):
     check_order(ctx, "C40.f/snapshot-before-commit", WCH + "snapshot_working_copy", LWC + "snapshot",
                 "re:^jj_cli::cli_util::CommandHelper::maybe_commit_transaction$")
+
+
+def rule_g(ctx):
+    F = ctx.F
+    # g1. snapshot_working_copy: Ok exits pass LockedWorkingCopy::snapshot or the tabled `workspace not in the view` bypass
+    root = WCH + "snapshot_working_copy"
+    bs = bodies_with(F, root, LWC + "snapshot")
+    if ctx.anchor("C40.g", root, bs, 1):
+        b = bs[0]
+        ctx.fn_seen(b.id)
+        sl = F.slicer(b.id)
+        snaps = [c for c in b.calls_to(LWC + "snapshot") if c.decl != "futures::Future::poll"]
+        oks = set()
+        for c in snaps:
+            oks |= find_ok_nodes(F, b, c)
+        bypass = set()
+        for bb, t in b.switches():
+            ds = b.discr_source(bb)
+            if ds and ds[1] == "std::option::Option":
+                term = sl.place(ds[0], at=bb)
+                if any(x[1] == CU + "handle_stale_working_copy" for x in term_calls(term)):
+                    e = b.variant_edge(bb, "None")
+                    if e is not None:
+                        bypass.add(e)
+        okn, _, _ = ok_exit_nodes(F, b)
+        bad = [x for x in okn if not b.set_dominated(x, oks | bypass)]
+        ctx.ob("C40.g/snapshot-or-workspace-absent", root, bool(oks) and bool(okn) and not bad,
+               "every Ok exit passes LockedWorkingCopy::snapshot()? or the `workspace has no working-copy commit in this view` edge"
+               if oks and okn and not bad else "snapshot_working_copy can return Ok without snapshotting on another path")
+        ctx.info["unsnapshotted_bypass_edges"] = len(bypass)
+    # g2. finish_transaction: the update is guarded
+    root = WCH + "finish_transaction"
+    UW = WCH + "update_working_copy"
+    bs = bodies_with(F, root, UW)
+    if not ctx.anchor("C40.g", root, bs, 1):
+        return
+    b = bs[0]
+    ctx.fn_seen(b.id)
+    sl = F.slicer(b.id)
+    ups = [c for c in b.calls_to(UW) if c.decl != "futures::Future::poll"]
+    guard = set()
+    why = []
+    for c in b.calls:
+        if c.cleanup:
+            continue
+        n = c.res or c.decl or ""
+        if n in ("std::option::Option::<T>::is_none", "std::option::Option::<T>::is_some"):
+            t = sl.call_arg(c, 0)
+            names = {x[1] for x in term_calls(t)}
+            # the old working-copy commit: looked up in the BASE repo's view
+            if any(x.endswith("Transaction::base_repo") for x in names) and any(x.endswith("View::get_wc_commit_id") for x in names):
+                tr, fa = bool_edges(F, b, c)
+                guard |= set(fa if n.endswith("is_none") else tr)
+                why.append("old working-copy commit exists")
+        elif b.locals and c.bb is not None:
+            # a bool helper that looks at the tree recorded in the working copy
+            from jjv.lib import callee_reaches
+            d = b.blocks[c.bb]["t"].get("d")
+            if n.startswith(WCH) and callee_reaches(F, c, "jj_lib::working_copy::WorkingCopy::tree", crates=("jj_cli",)) and \
+                    n not in (UW, WCH + "update_working_copy"):
+                tr, fa = bool_edges(F, b, c)
+                if fa:
+                    guard |= set(fa)
+                    why.append(f"{n.split('::')[-1]}() == false")
+    # discriminant tests on the old commit (if let Some(old) = ..)
+    for bb, t in b.switches():
+        ds = b.discr_source(bb)
+        if ds and ds[1] == "std::option::Option":
+            term = sl.place(ds[0], at=bb)
+            names = {x[1] for x in term_calls(term)}
+            if any(x.endswith("Transaction::base_repo") for x in names) and any(x.endswith("View::get_wc_commit_id") for x in names) \
+                    and not any(x.endswith("Transaction::repo") for x in names):
+                e = b.variant_edge(bb, "Some")
+                # only count switches that come after the commit of the transaction (the lookups themselves also match)
+                if e is not None and ups and all(u.bb in b.after(e) for u in ups) and \
+                        any(cm.bb in b.reachable_from([0], avoid=[e]) for cm in b.calls_to(CU + "CommandHelper::maybe_commit_transaction")):
+                    pass
+    ok = bool(ups) and bool(guard) and all(b.set_dominated(u.bb, guard) for u in ups)
+    ctx.ob("C40.g/no-unguarded-checkout-of-unsnapshotted-workspace", root, ok,
+           f"update_working_copy is reached only when {' or '.join(sorted(set(why)))}" if ok else
+           "finish_transaction can check out a new commit in a workspace that had no working-copy commit when the command "
+           "started: that working copy was not snapshotted (C40.g/snapshot-or-workspace-absent) and Workspace::check_out gets no "
+           "expected tree, so tracked files edited since the last snapshot are overwritten or deleted without being recorded",
+           where=ups[0].where() if ups else None)
+    # g3. polarity of the helper: it answers true only when the recorded tree differs from the new one
+    hb = F.body(WCH + "workspace_has_unsnapshotted_tree_other_than")
+    if hb is not None:
+        ctx.fn_seen(hb.id)
+        names = [c.res or c.decl or "" for c in hb.calls if not c.cleanup]
+        nes = [n for n in names if n.endswith("::ne") or n.endswith("PartialEq::ne")]
+        eqs = [n for n in names if n.endswith("PartialEq::eq")]
+        okh = "jj_lib::working_copy::WorkingCopy::tree" in names and any(x.endswith("Commit::tree_ids") for x in names) and \
+            len(nes) >= 1 and not eqs
+        ctx.ob("C40.g/helper-compares-recorded-tree", hb.id, okh,
+               "true only if working_copy.tree() != new_commit tree (and is not empty)" if okh else
+               "the helper no longer compares the recorded tree with the new commit's tree by inequality")
